@@ -114,6 +114,37 @@ def run(F, tier, res):
             alt = i
         elif has_rem:
             plain = i
+    # both indices are reduced modulo the PALETTE length (not the number of keys or anything else)
+    for (i, c) in idx_calls:
+        nn += 1
+        mod_ok = False
+        from .c20 import _find_binop_rvalue
+        pl_ = c['args'][1].get('copy') or c['args'][1].get('move')
+        rems = []
+        work = [c['args'][1]]
+        seen_l = set()
+        while work:
+            o_ = work.pop()
+            q_ = o_.get('copy') or o_.get('move')
+            if not q_ or q_['l'] in seen_l:
+                continue
+            seen_l.add(q_['l'])
+            for (dbb, kind, payload) in F.local_defs(gn).get(q_['l'], []):
+                if kind == 'assign' and payload[0] == 'binop' and payload[1].startswith('Rem'):
+                    rems.append(payload)
+                elif kind == 'assign':
+                    for y in payload[1:]:
+                        if isinstance(y, dict):
+                            work.append(y)
+        for rv in rems:
+            rhs = F.trace(gn, rv[3])
+            if any(r[0] == 'call' and r[1].endswith('::len') and any(rr[0] == 'param' and 'blame_palette' in rr[2] for a in r[4]['args'][:1] for rr in F.trace(gn, a)) for r in rhs):
+                mod_ok = True
+        if mod_ok:
+            okn += 1
+        else:
+            res.violate('NEXT', 'fn=%s;modulus' % gn, 'a palette index in the next-colour function is not reduced modulo the palette length: the alternative colour can coincide with the '
+                        'excluded one (or the index can leave the palette)', where=F.span_of_call(c))
     nn += 1
     good = False
     if plain is not None and alt is not None:
